@@ -316,6 +316,8 @@ class ExprMixin:
                     return self.ev_const_expr(tmod, tmod.consts[attr])
                 raise OutOfSubset(f"line {line}: {base.ref} has no {attr}")
             dotted = base.ref + "." + attr
+            if base.ref == "os" and attr in ("SEEK_SET", "SEEK_CUR", "SEEK_END"):
+                return VInt({"SEEK_SET": 0, "SEEK_CUR": 1, "SEEK_END": 2}[attr])
             root = base.ref.split(".")[0]
             if root in ("numpy", "np") and attr in NP_DTYPES and base.ref in ("numpy", "np"):
                 return VDtype(NP_DTYPES[attr])
@@ -355,7 +357,21 @@ class ExprMixin:
             fields = st.objs[base.oid]
             if attr in fields:
                 return fields[attr]
+            if f"{base.cls}.{attr}" in self.models:
+                return VFunc("model", f"{base.cls}.{attr}", base)
             return self.obj_attr(base, attr, st, line)
+        if type(base).__name__ == "VRec":
+            if attr in base.fields:
+                return base.fields[attr]
+            raise OutOfSubset(f"line {line}: record {base.cls} has no field {attr}")
+        if type(base).__name__ == "VArrDec":
+            if attr == "size":
+                return VInt(base.n)
+            if attr == "dtype":
+                return VDtype(base.dtype)
+            if attr == "shape":
+                return VTuple([VInt(base.n)])
+            return VFunc("arrmethod", attr, base)
         if isinstance(base, VDtype):
             if attr == "itemsize":
                 return VInt({"u1": 1, "u2": 2, "i4": 4, "f4": 4, "f8": 8, "i8": 8, "b1": 1, "c8": 8}[base.name])
@@ -408,6 +424,32 @@ class ExprMixin:
             return self.load(st, base, self.to_int(idx, line), line)
         if isinstance(base, VArr2):
             return self.subscript2(base, sl, st, line)
+        if type(base).__name__ == "VFirstTrueTuple":
+            from .iomodel import first_true
+            c = smt.conc_int(self.to_int(self.ev(sl, st), line))
+            if c != 0:
+                raise OutOfSubset(f"line {line}: np.where(...)[0][k] with k != 0")
+            return first_true(self, st, base, line)
+        if type(base).__name__ == "VArrDec":
+            from .iomodel import VArrDec, dec_elem
+            if isinstance(sl, ast.Slice):
+                lo, hi, step = self.ev_slice_parts(sl, st)
+                if step is not None or (lo is not None and smt.conc_int(lo) != 0):
+                    raise OutOfSubset(f"line {line}: slice of a decoded view")
+                h = base.n if hi is None else hi
+                n2 = smt.simp(z3.If(h < 0, z3.IntVal(0), z3.If(h <= base.n, h, base.n)))
+                if self.entails(st, z3.And(0 <= h, h <= base.n)):
+                    n2 = h
+                return VArrDec(base.obj, base.off, base.isz, n2, base.dtype)
+            k = self.to_int(self.ev(sl, st), line)
+            if self.spec_depth == 0:
+                self.oblig(st, f"index@{line}", z3.And(0 <= k, k < base.n), line)
+                st.assume(z3.And(0 <= k, k < base.n))
+            return dec_elem(st, base, k)
+        if isinstance(base, VObj) and base.cls == "ChunkList":
+            f = st.objs[base.oid]
+            arr = VArr(f["obj"], z3.IntVal(0), z3.IntVal(1), f["n"].t)
+            return self.subscript(arr, sl, st, line)
         if isinstance(base, (VTuple, VList)):
             if isinstance(sl, ast.Slice):
                 lo, hi, step = self.ev_slice_parts(sl, st)
